@@ -93,9 +93,13 @@ def rows_of(c):
     """one Coq row per backend of the case; row id = case id * 100 + backend index"""
     out = []
     if is_res(c):
-        for i, (it, o) in enumerate(zip(c["res"]["items"], c["obs"]["items"])):
-            out.append("res_item_case %d fx %s false cl_%d %s %s %s %s %s %s %s" % (
-                c["id"] * 100 + i, C.cq_bool(c["plus"]), c["id"], C.cq_str(it["ns"]), cq_backend(it["b"]),
+        items = c["res"]["items"]
+        for i, (it, o) in enumerate(zip(items, c["obs"]["items"])):
+            # ExternalNameSvcs is keyed by service: is there another backend of the resource on the same service?
+            shared = any(j != i and x["b"]["svc"] == it["b"]["svc"] and (x["ns"] == it["ns"] or c["res"]["kind"] in ("ing", "ming"))
+                         for j, x in enumerate(items))
+            out.append("res_item_case %d fx %s false cl_%d %s %s %s %s %s %s %s %s" % (
+                c["id"] * 100 + i, C.cq_bool(c["plus"]), c["id"], C.cq_str(it["ns"]), cq_backend(it["b"]), C.cq_bool(shared),
                 C.cq_list([C.cq_str(x) for x in o.get("entry") or []]), C.cq_bool(o["ext_svc"]),
                 C.cq_list([C.cq_str(x) for x in o.get("servers") or []]), C.cq_bool(o["was_pushed"]),
                 C.cq_list([C.cq_str(x) for x in o.get("pushed") or []])))
